@@ -13,7 +13,7 @@ import (
 func init() {
 	register("C04", &propDef{
 		Title: "Every symlink left by Unpack resolves inside the destination",
-		Rules: []func(*Checker){ruleC04Guard, ruleC04Accept, ruleC04Lexical, ruleC04Relative("C04.relative"), rulePredSound("C04.pred"), rulePackerWriters("C04.allowlist"), ruleAllowBase("C04.allowbase"), aliasRule(ruleC01Walk, "C01.walk", "C04.placement", 3), ruleLinkEntriesJudged("C04.judged")},
+		Rules: []func(*Checker){ruleC04Guard, ruleC04Accept, ruleC04Lexical, ruleC04Relative("C04.relative"), rulePredSound("C04.pred"), rulePackerWriters("C04.allowlist"), ruleAllowBase("C04.allowbase"), aliasRule(ruleC01Walk, "C01.walk", "C04.placement", 3), ruleLinkEntriesJudged("C04.judged"), aliasRuleFiltered(ruleC01Sinks, "C01.sinks", "C04.linkpaths", 1, func(o Oblig) bool { return strings.Contains(o.Key, "Symlink") || strings.Contains(o.Key, "os.Link") || strings.Contains(o.Key, "Rename") })},
 		NotDecided: []string{
 			"physical resolution through other links beyond the necessary condition C04.lexical checks (which entries exist when, chains of links) — a run-time / filesystem fact no sound static rule here decides",
 			"whether the validator distinguishes every spelling of absolute targets (string content)",
@@ -26,7 +26,9 @@ func init() {
 			// SkipDir returned for something that is not a directory skips the rest of the directory it is in: links that sort after it are never judged
 			aliasRuleFiltered(ruleC03Prune, "C03.prune", "C05.skipdir", 1, func(o Oblig) bool { return strings.Contains(o.Key, "SkipDir only for directories") }),
 			// Unpack accepts what Pack wrote also where the destination is a link to the directory to fill
-			aliasRuleFiltered(ruleC01Walk, "C01.walk", "C05.walked", 1, func(o Oblig) bool { return strings.Contains(o.Key, "below the destination") })},
+			aliasRuleFiltered(ruleC01Walk, "C01.walk", "C05.walked", 1, func(o Oblig) bool { return strings.Contains(o.Key, "below the destination") }),
+			// an out-of-tree link is refused or copied, never left out without a word
+			aliasRule(ruleC02Omit, "C02.omit", "C05.omit", 3)},
 		NotDecided: []string{
 			"content equality of dereferenced copies",
 			"behaviour of links that are in-tree on disk but whose targets are replaced during the walk",
